@@ -92,6 +92,8 @@ pub const CODE_SYSTEM_ERROR: &str = "system-error";
 pub const CODE_CORRUPTION: &str = "corruption";
 /// A manifest string contains a disallowed newline.
 pub const CODE_NEWLINE_DISALLOWED: &str = "newline-disallowed";
+/// A manifest string could not be read back from the manifest file.
+pub const CODE_STRING_DISALLOWED: &str = "string-disallowed";
 /// The manifest exists and `fail_if_exists` was specified.
 pub const CODE_MANIFEST_EXISTS: &str = "manifest-exists";
 /// The manifest does not exist and `fail_if_not_exist` was specified.
@@ -118,6 +120,12 @@ fn corruption(what: impl AsRef<str>) -> SError {
 fn newline_disallowed(what: impl AsRef<str>) -> SError {
     error(CODE_NEWLINE_DISALLOWED)
         .with_message("manifest string contains newline")
+        .with_string_field("what", what.as_ref())
+}
+
+fn string_disallowed(what: impl AsRef<str>) -> SError {
+    error(CODE_STRING_DISALLOWED)
+        .with_message("manifest string cannot be represented")
         .with_string_field("what", what.as_ref())
 }
 
@@ -536,6 +544,12 @@ impl Edit {
 
     /// Set the info field `c` to `s`.
     pub fn info(&mut self, c: char, s: &str) -> Result<(), SError> {
+        // The reader takes one byte for the key and treats '+' and '-' as add and remove.
+        if !c.is_ascii() || c == '+' || c == '-' {
+            return Err(string_disallowed(
+                "info keys must be ASCII other than '+' and '-'",
+            ));
+        }
         Self::check_str(&c.to_string())?;
         let s = Self::check_str(s)?;
         self.info.insert(c, s);
@@ -551,6 +565,11 @@ impl Edit {
         if s.chars().any(|c| c == '\n') {
             Err(newline_disallowed(
                 "added strings must not contain newlines",
+            ))
+        } else if s.is_empty() || !s.is_ascii() || s.ends_with('\r') {
+            // The reader requires non-empty ASCII lines and strips a trailing carriage return.
+            Err(string_disallowed(
+                "strings must be non-empty ASCII not ending in a carriage return",
             ))
         } else {
             Ok(s.to_owned())
